@@ -1,6 +1,13 @@
 package main
 
-import "strings"
+import (
+	"fmt"
+	"strings"
+
+	"github.com/jamf/regatta/regattaserver"
+)
 
 // extractMore is extended as more areas are modelled.
-func extractMore(sb *strings.Builder) {}
+func extractMore(sb *strings.Builder) {
+	fmt.Fprintf(sb, "def defaultMaxGRPCSize : Nat := %d\n", regattaserver.DefaultMaxGRPCSize)
+}
